@@ -38,8 +38,11 @@ FamilyOK(e) == /\ e.panicked = FALSE /\ e.err = FALSE /\ e.j \in 0..(e.N - 1)
 InvOK(e) == e.panicked = FALSE /\ e.err = FALSE /\ RIsNum(e.maxdiff) /\ RIsNum(e.norm) /\ RLeq(e.maxdiff, TolLog(e.N, e.norm))
 WrongLenOK(e) == e.len # LastPow2(e.N).n => (e.panicked = TRUE /\ e.returned = FALSE)
 
+\* every call returns (e.hang); a spectrum a caller still holds from an earlier call of the same transformer is not
+\* rewritten by a later call (e.kept); both hold whatever the transformer went through before (a refused call included)
 Init == l = 1
 Step == /\ l <= Len(Trace)
+        /\ Trace[l].hang = FALSE /\ Trace[l].kept = TRUE
         /\ LET e == Trace[l] IN
              CASE e.kind = "new" -> NewOK(e)
                [] e.kind \in {"impulse", "tone"} -> FamilyOK(e)
